@@ -200,22 +200,27 @@ def run(index, rep, tier):
             rep.check(descending, "R19.5", fi.qualname, "deletion loop order: " + norm(it), fn_where(fi, f),
                       "cells are deleted while iterating `%s` (must run from the high end)" % norm(it),
                       "cells are deleted from a sequence while its indices are iterated in ascending order; later indices shift and the wrong columns survive")
-            # guard polarity
-            g = pm.get(d)
-            while g is not None and not isinstance(g, ast.If):
-                g = pm.get(g)
+            # guard polarity, on the CFG: the deletion runs only where the loop index is NOT in the requested set
+            cfg = cfg_of(fi)
+            loopvar = norm(f.target)
+            sub = [t for t in d.targets if isinstance(t, ast.Subscript)][0]
+            dn = stmt_nodes(cfg, d)
+            tests = [t for t in cfg.nodes if t.kind == "test" and isinstance(t.ast, ast.Compare) and len(t.ast.ops) == 1 and isinstance(t.ast.ops[0], (ast.In, ast.NotIn))
+                     and norm(t.ast.left) == loopvar]
             ok = False
             why = "deletion is not guarded by a membership test on the requested index set"
-            if isinstance(g, ast.If) and g is not None and d in g.body or (isinstance(g, ast.If) and any(d is x or d in ast.walk(x) for x in g.body)):
-                cp = compare_parts(g.test)
-                loopvar = norm(f.target)
-                sub = [t for t in d.targets if isinstance(t, ast.Subscript)][0]
-                if cp and cp[1] == "NotIn" and norm(cp[0]) == loopvar and norm(sub.slice) == loopvar:
-                    ok = True
-                elif cp and cp[1] == "In":
+            gtxt = "<none>"
+            if dn and tests and norm(sub.slice) == loopvar:
+                gtxt = norm(tests[0].ast)
+                keep_edges = {(t.id, "f" if isinstance(t.ast.ops[0], ast.NotIn) else "t") for t in tests}      # index IS requested
+                drop_edges = {(t.id, "t" if isinstance(t.ast.ops[0], ast.NotIn) else "f") for t in tests}      # index is NOT requested
+                reach_wo_drop = cfg.reach([cfg.entry], follow_exc=False, edge_ok=lambda s_, l, d_: (s_.id, l) not in drop_edges)
+                reach_wo_keep = cfg.reach([cfg.entry], follow_exc=False, edge_ok=lambda s_, l, d_: (s_.id, l) not in keep_edges)
+                only_when_dropped = all(x is not dn[0] for x in reach_wo_drop)
+                ok = only_when_dropped and any(x is dn[0] for x in reach_wo_keep)
+                if not only_when_dropped and all(x is not dn[0] for x in reach_wo_keep):
                     why = "deletion happens when the index IS in the requested set (inverted selection)"
-            rep.check(ok, "R19.5", fi.qualname, "deletion guard: " + (norm(g.test) if isinstance(g, ast.If) else "<none>"), fn_where(fi, d),
-                      "del %s guarded by `%s`" % (norm(d.targets[0]), norm(g.test) if isinstance(g, ast.If) else "<none>"), why)
+            rep.check(ok, "R19.5", fi.qualname, "deletion guard: " + gtxt, fn_where(fi, d), "del %s runs only when `%s` is not requested" % (norm(d.targets[0]), loopvar), why)
 
     # ---- R19.6
     with rep.section("R19.6"):
